@@ -25,14 +25,14 @@ Proof.
 Qed.
 Print Assumptions C06_no_hold_and_wait.
 
-(* the same for any mix of RPUSH, RPUSHX and LPOP clients on keys that are created, emptied, unlinked and
-   re-created meanwhile: whoever waits holds nothing, whoever holds a record holds exactly that one,
+(* the same for the RPUSH, RPUSHX and LPOP clients of any mix that may also contain LPOPRPUSH a b, on keys that are
+   created, emptied, unlinked and re-created meanwhile: whoever waits holds nothing, whoever holds a record holds exactly that one,
    exclusively, and stands at a step that is never blocked (load, store, unlink, commit) - the holder
    of any record can always run to its commit, so no cycle of waiting threads can form *)
 Theorem C06_writers_no_hold_and_wait : forall vals cmds sched t x,
-  writers_only cmds -> (forall kv, In kv vals -> 0 <= snd kv) ->
+  supported cmds -> (forall kv, In kv vals -> 0 <= snd kv) ->
   let s := run_micro sched (init_state vals cmds) in
-  nget t (ths s) = Some x ->
+  nget t (ths s) = Some x -> wkey (t_cmd x) <> None ->
   (forall r sec, t_pc x = PWait r sec -> t_held x = []) /\
   (t_held x <> [] -> exists r, t_held x = [(r, true)] /\ r_w (get_rec r s) = Some t /\
                      match t_pc x with PLocked _ _ | PPub _ _ | PLoaded _ _ _ | PStored _ _ | PUnlink _ _ => True | _ => False end).
